@@ -48,6 +48,7 @@ pub trait P {
     #[zlink(oneway)]
     async fn notify(&mut self, n: u8) -> zlink_core::Result<()>;
     async fn get_2fa_code(&mut self) -> zlink_core::Result<Result<Out, PErr>>;
+    async fn ren_opt(&mut self, #[zlink(rename = "wireOpt")] o: Option<u8>, y: bool) -> zlink_core::Result<Result<Out, PErr>>;
 }
 
 pub const WCAP: usize = 160;
@@ -118,12 +119,18 @@ pub struct Args {
     pub s: [u8; 1],
 }
 
-fn any_args(nd: &mut Nd) -> Args {
+/// Symbolic argument values whose encodings have a *fixed width* (three-digit numbers, a
+/// character that needs no escape), so that every byte of the frame has a concrete offset (R1);
+/// whether the optional argument is present is decided by the instance (`XS`).
+fn any_args<const XS: bool>(nd: &mut Nd) -> Args {
+    let a = nd.byte_in(100, 255);
+    let xv = nd.byte_in(100, 255);
+    let c = nd.alnum();
     Args {
-        a: nd.u8(),
+        a,
         b: nd.bool(),
-        x: if nd.bool() { Some(nd.u8()) } else { None },
-        s: [nd.ascii()],
+        x: if XS { Some(xv) } else { None },
+        s: [c],
     }
 }
 
@@ -181,7 +188,18 @@ pub fn expected<const M: usize>(g: &Args) -> Doc<WCAP> {
             dec(&mut d, g.a);
             d.lit(b"},\"oneway\":true}");
         }
-        _ => d.lit(b"{\"method\":\"org.ex.P.Get2faCode\"}"),
+        8 => d.lit(b"{\"method\":\"org.ex.P.Get2faCode\"}"),
+        _ => {
+            d.lit(b"{\"method\":\"org.ex.P.RenOpt\",\"parameters\":{");
+            if let Some(x) = g.x {
+                d.lit(b"\"wireOpt\":");
+                dec(&mut d, x);
+                d.push(b',');
+            }
+            d.lit(b"\"y\":");
+            d.lit(if g.b { b"true" } else { b"false" });
+            d.lit(b"}}");
+        }
     }
     d.push(0);
     d
@@ -240,8 +258,13 @@ fn run_plain<const M: usize>(c: &mut Connection<PSock>, g: &Args) {
             let mut f = core::pin::pin!(f);
             core::mem::forget(poll_once(f.as_mut()));
         }
-        _ => {
+        8 => {
             let f = c.get_2fa_code();
+            let mut f = core::pin::pin!(f);
+            core::mem::forget(poll_once(f.as_mut()));
+        }
+        _ => {
+            let f = c.ren_opt(g.x, g.b);
             let mut f = core::pin::pin!(f);
             core::mem::forget(poll_once(f.as_mut()));
         }
@@ -249,8 +272,8 @@ fn run_plain<const M: usize>(c: &mut Connection<PSock>, g: &Args) {
 }
 
 /// The plain generated method writes exactly the frame its declaration denotes, in one write.
-pub fn proxy_plain<const M: usize>(nd: &mut Nd) {
-    let g = any_args(nd);
+pub fn proxy_plain<const M: usize, const XS: bool>(nd: &mut Nd) {
+    let g = any_args::<XS>(nd);
     let mut c = conn();
     run_plain::<M>(&mut c, &g);
     let (writes, len, data) = captured(&c);
@@ -264,7 +287,7 @@ pub fn proxy_plain<const M: usize>(nd: &mut Nd) {
         }
         i += 1;
     }
-    cover!(nd, g.x.is_none() && g.a >= 100, "None argument and a three-digit number");
+    cover!(nd, g.b, "boolean argument true");
     core::mem::forget(c);
 }
 
@@ -296,8 +319,8 @@ fn enqueued(c: &Connection<PSock>) -> (usize, [u8; WCAP]) {
 
 /// `chain_<m>(args).send()` writes the same frame as the plain method (M ≠ oneway method, for
 /// which no chain form is generated).
-pub fn proxy_chain<const M: usize>(nd: &mut Nd) {
-    let g = any_args(nd);
+pub fn proxy_chain<const M: usize, const XS: bool>(nd: &mut Nd) {
+    let g = any_args::<XS>(nd);
     let s = crate::nd::str_of(&g.s);
     let mut c = conn();
     match M {
@@ -308,7 +331,8 @@ pub fn proxy_chain<const M: usize>(nd: &mut Nd) {
         4 => send_chain!(c.chain_renamed_method::<Out, PErr>()),
         5 => send_chain!(c.chain_ren_param::<Out, PErr>(g.a)),
         6 => send_chain!(c.chain_watch::<Out, PErr>(g.a)),
-        _ => send_chain!(c.chain_get_2fa_code::<Out, PErr>()),
+        8 => send_chain!(c.chain_get_2fa_code::<Out, PErr>()),
+        _ => send_chain!(c.chain_ren_opt::<Out, PErr>(g.x, g.b)),
     }
     let (len, data) = enqueued(&c);
     let e = expected::<M>(&g);
@@ -323,10 +347,10 @@ pub fn proxy_chain<const M: usize>(nd: &mut Nd) {
         }
         ok
     };
-    match M {
-        3 => assert!(same, "C12.chain_form_same_frame_as_plain[opt: None omitted]"),
-        5 => assert!(same, "C12.chain_form_same_frame_as_plain[renamed parameter]"),
-        6 => assert!(same, "C12.chain_form_same_frame_as_plain[more flag]"),
+    match (M, XS) {
+        (3, false) => assert!(same, "C12.chain_form_same_frame_as_plain[opt: None omitted]"),
+        (5, _) | (9, _) => assert!(same, "C12.chain_form_same_frame_as_plain[renamed parameter]"),
+        (6, _) => assert!(same, "C12.chain_form_same_frame_as_plain[more flag]"),
         _ => assert!(same, "C12.chain_form_same_frame_as_plain"),
     }
     core::mem::forget(c);
@@ -334,8 +358,8 @@ pub fn proxy_chain<const M: usize>(nd: &mut Nd) {
 
 /// `chain_ping().<m>(args).send()`: the second document of the single write is the plain
 /// method's frame.
-pub fn proxy_ext<const M: usize>(nd: &mut Nd) {
-    let g = any_args(nd);
+pub fn proxy_ext<const M: usize, const XS: bool>(nd: &mut Nd) {
+    let g = any_args::<XS>(nd);
     let s = crate::nd::str_of(&g.s);
     let mut c = conn();
     {
@@ -354,7 +378,8 @@ pub fn proxy_ext<const M: usize>(nd: &mut Nd) {
             4 => send_chain!(first.renamed_method()),
             5 => send_chain!(first.ren_param(g.a)),
             // (no chain-extension form is generated for `more` and `oneway` methods)
-            _ => send_chain!(first.get_2fa_code()),
+            8 => send_chain!(first.get_2fa_code()),
+            _ => send_chain!(first.ren_opt(g.x, g.b)),
         }
     }
     let (len, data) = enqueued(&c);
@@ -375,10 +400,9 @@ pub fn proxy_ext<const M: usize>(nd: &mut Nd) {
         }
         ok
     };
-    match M {
-        3 => assert!(same, "C12.chain_extension_same_frame_as_plain[opt: None omitted]"),
-        5 => assert!(same, "C12.chain_extension_same_frame_as_plain[renamed parameter]"),
-        6 => assert!(same, "C12.chain_extension_same_frame_as_plain[more flag]"),
+    match (M, XS) {
+        (3, false) => assert!(same, "C12.chain_extension_same_frame_as_plain[opt: None omitted]"),
+        (5, _) | (9, _) => assert!(same, "C12.chain_extension_same_frame_as_plain[renamed parameter]"),
         _ => assert!(same, "C12.chain_extension_same_frame_as_plain"),
     }
     core::mem::forget(c);
